@@ -137,6 +137,13 @@ fn request_clock(scn: &Scn, req: &Req) -> Option<u64> {
 }
 
 fn do_request(env: &WorkerEnv, scn: &Scn, req: &Req, thread: usize, idx: usize, yield_io: Option<simio::YieldFn>) -> Resp {
+    // (without a "device full" node to write to, those two faults cannot be injected: the
+    // request then runs as an ordinary one)
+    let mut req = req.clone();
+    if matches!(req.fs_fault.as_deref(), Some("out-dev-full" | "stdout-dev-full")) && full_device(env).is_none() {
+        req.fs_fault = None;
+    }
+    let req = &req;
     let doc = &scn.docs[req.doc].0;
     let cfg = &scn.cfgs[req.cfg];
     let mut r = Resp {
@@ -224,7 +231,10 @@ fn do_request(env: &WorkerEnv, scn: &Scn, req: &Req, thread: usize, idx: usize, 
                         Some((h, alive))
                     }
                     Some(srv) => {
+                        // (half of the single requests go on the wire in an unusual but valid way)
+                        set_http_style(if req.client % 2 == 0 { scn.sched_seed ^ req.client as u64 } else { 0 });
                         let h = srv.post(doc, am, Duration::from_secs(10));
+                        set_http_style(0);
                         let alive = srv.alive();
                         if h.is_none() {
                             *guard = None;
@@ -281,7 +291,7 @@ fn do_request(env: &WorkerEnv, scn: &Scn, req: &Req, thread: usize, idx: usize, 
             }
             match req.fs_fault.as_deref() {
                 Some("outdir-missing") => outp = dir.join("no-such-dir").join("out.svg"),
-                Some("out-dev-full") => outp = PathBuf::from("/dev/full"),
+                Some("out-dev-full") => outp = full_device(env).unwrap_or_else(|| PathBuf::from("/dev/full")),
                 _ => {}
             }
             if let Some(kind) = &req.alias {
@@ -365,7 +375,7 @@ fn do_request(env: &WorkerEnv, scn: &Scn, req: &Req, thread: usize, idx: usize, 
                         env: envs,
                         env_remove: vec![],
                         timeout: Duration::from_secs(20),
-                        stdout_to: if req.fs_fault.as_deref() == Some("stdout-dev-full") { Some(PathBuf::from("/dev/full")) } else { None },
+                        stdout_to: if req.fs_fault.as_deref() == Some("stdout-dev-full") { full_device(env) } else { None },
                         stdin_file: if req.alias.as_deref() == Some("stdin-redirect") { Some(inp.clone()) } else { None },
                     },
                 );
@@ -451,7 +461,8 @@ impl Engine for C07 {
         let corpus = small_corpus(env);
         let mut docs = Vec::new();
         for _ in 0..n_docs {
-            let d = match w.below(16) {
+            let d = match w.below(17) {
+                16 => Doc::from_str(&docgen::intl_doc(&mut w)),
                 0 | 1 => Doc::from_str(&docgen::failing_doc(&mut w).0),
                 13 => Doc::from_str(&docgen::crlf_doc(&mut w)),
                 14 => Doc::from_str(&docgen::limit_hitting_doc(&mut w)),
